@@ -224,13 +224,16 @@ func (s *Set[T]) Equal(other *Set[T]) bool {
 		return iter.Close() == nil && otherIter.Close() == nil
 	}
 
-	for iter.Next(ctx) {
-		if !other.Check(iter.Value()) {
+	// range over the map directly: the key iterator of a map runs in
+	// its own goroutine, which an early return would abandon while it
+	// is still reading the map.
+	for item := range s.hash {
+		if !other.Check(item) {
 			return false
 		}
 	}
 
-	return iter.Close() == nil
+	return true
 }
 
 // MarshalJSON generates a JSON array of the items in the set.
